@@ -193,6 +193,7 @@ func (hs *serverHandshakeStateTLS13) processClientHello() error {
 		c.sendAlert(alertHandshakeFailure)
 		return errors.New("tls: no cipher suite supported by both client and server")
 	}
+	hs.suite = c.verifPickSuite13(hs.suite)
 	c.cipherSuite = hs.suite.id
 	hs.hello.cipherSuite = hs.suite.id
 	hs.transcript = hs.suite.hash.New()
@@ -228,6 +229,7 @@ func (hs *serverHandshakeStateTLS13) processClientHello() error {
 		return isPQKeyExchange(preferredGroups[i]) && !isPQKeyExchange(preferredGroups[j])
 	})
 	selectedGroup := preferredGroups[0]
+	selectedGroup = c.verifSelectGroup(selectedGroup)
 
 	var clientKeyShare *keyShare
 	for _, ks := range hs.clientHello.keyShares {
@@ -601,6 +603,7 @@ func (hs *serverHandshakeStateTLS13) doHelloRetryRequest(selectedGroup CurveID) 
 		c.sendAlert(alertUnexpectedMessage)
 		return nil, unexpectedMessageError(clientHello, msg)
 	}
+	c.verifSecondHello(clientHello)
 
 	if hs.echContext != nil {
 		if len(clientHello.encryptedClientHello) == 0 {
@@ -1050,6 +1053,9 @@ func (hs *serverHandshakeStateTLS13) readClientCertificate() error {
 
 	// If we requested a client certificate, then the client must send a
 	// certificate message. If it's empty, no CertificateVerify is sent.
+	if err := c.verifReadClientEE(hs.transcript); err != nil {
+		return err
+	}
 
 	msg, err := c.readHandshake(hs.transcript)
 	if err != nil {
